@@ -568,7 +568,7 @@ def run(ctx):
     ctx.leg('late_install_multi', cases=nl)
     cases = [{'leg': 'file', 'counts': list(c), 'write_count': wc, 'win': wi}
              for c in itertools.product((0, 1, 2), repeat=T) for wc in wcs for wi in range(len(WINDOWS))]
-    for fm in ('at', 'a+'):
+    for fm in ('at', 'a+', 'ta', '+a'):
         for counts in ([1, 2, 0, 1, 2], [2, 2, 2, 2, 2]):
             for wc in (0, 1, 2):
                 cases.append({'leg': 'file', 'counts': counts, 'write_count': wc, 'win': 0, 'filemode': fm})
